@@ -6,6 +6,30 @@ HERE = os.path.dirname(os.path.dirname(os.path.abspath(__file__)))
 
 # id -> (design_ref, technique, level text, level_note)
 CLAIMED = {}
+# structural conditions added after the third mutant round (kept short; the evidence files carry the full rule list)
+ROUND3 = {
+ "C01": " Third round: shortcut leaves are built from the key/value they stand for, push-down resets land in the written batch, one ordering convention for leaf lists.",
+ "C02": " Third round: the client verifies the proof it received unmodified; a missing audit-path entry aborts the recomputation.",
+ "C03": " Third round: a missing audit-path entry aborts; ProveConsistency prunes with its own traversal only; the client verifies the proof unmodified.",
+ "C04": " Third round: shortcut arguments, push-down resets, one ordering convention, one recovery level.",
+ "C05": " Third round: no recover on the apply path; a restore always requests the transfer and ends on the first refused batch; hasher factories are fresh.",
+ "C06": " Third round: no recover on the apply path; hasher factories are fresh; a restore always transfers.",
+ "C07": " Third round: loadState installs what it decoded; no recover on the apply path; a reader errs only with an empty chunk.",
+ "C08": " Third round: readers hand out fresh pairs; a node joins at start-up only without state; loadState installs what it decoded.",
+ "C09": " Third round: the transfer is always requested and streamed from the store; the per-batch callback's refusal ends it.",
+ "C10": " Third round: after an error answer a query handler returns.",
+ "C11": " Third round: after an error answer every handler returns; the proposed command is well-formed on every path; request-path goroutines signal their WaitGroup on every exit.",
+ "C12": " Third round: token character indexes are length-guarded; padding length comes from the hasher in use.",
+ "C13": " Third round: hasher factories return a new hasher per call.",
+ "C14": " Third round: readers hand out newly allocated pairs and report an error only with an empty chunk.",
+ "C15": " Third round: StoreLog(s) writes every log on every path; no write bypasses the write-ahead log.",
+ "C16": " Third round: a backup can only capture whole applied bulks (one atomic write per bulk, no write bypassing the WAL); db/wal directories handed over in position.",
+ "C17": " Third round: Verify's result depends on the message.",
+ "C18": " Third round: peer lists read under the topology lock and changed by notifications only; loop goroutines own their variables.",
+ "C19": " Third round: the dedup key covers the batch; the publisher posts once per batch.",
+ "C20": " Third round: Update builds a fresh list; MarkAsDead always marks; the retrier is bounded.",
+}
+
 def claim(id, ref, technique, text, note):
     CLAIMED[id] = (ref, technique, text, note)
 
@@ -108,6 +132,7 @@ def main():
         if id not in CLAIMED:
             continue
         ref, tech, text, note = CLAIMED[id]
+        text = text + ROUND3.get(id, '')
         checks.append({
             "property_id": id,
             "quick_cmd": "./check.sh %s quick" % id,
